@@ -87,6 +87,11 @@ def _share_storage(x, y):
     return x.storage().data_ptr() == y.storage().data_ptr()
 
 
+def _scale(z):
+    # the larger of |Re z| and |Im z|: what to divide by before squaring
+    return torch.max(real(z).abs(), imag(z).abs())
+
+
 def _common_dtype(x, y):
     # `y` on the device of `x`, both in the wider of the two dtypes, so that a
     # float32 operand (e.g. `I`) never rounds a float64 one
@@ -288,11 +293,14 @@ def elementwise_division(x, y):
     if x.shape != y.shape:
         raise ValueError("x and y must have the same shape!")
 
-    y_star = conj(y)
+    # divide both operands by the scale of `y` first: |y|^2 itself leaves the
+    # float64 range long before the quotient does
+    s = _scale(y)
+    y_s = y / s
 
-    sqrd_abs_y = absolute_value(y).pow_(2)
+    sqrd_abs_y = real(y_s) ** 2 + imag(y_s) ** 2
 
-    return elementwise_mult(x, y_star).div_(sqrd_abs_y)
+    return elementwise_mult(x / s, conj(y_s)).div_(sqrd_abs_y)
 
 
 def absolute_value(x):
@@ -304,8 +312,7 @@ def absolute_value(x):
     :returns: A real tensor.
     :rtype: torch.Tensor
     """
-    x_star = conj(x)
-    return real(elementwise_mult(x, x_star)).sqrt_()
+    return torch.hypot(real(x), imag(x))
 
 
 def kronecker_prod(x, y):
@@ -376,10 +383,11 @@ def inverse(z):
     :returns: 1 / z
     :rtype: torch.Tensor
     """
-    z_star = conj(z)
-    denominator = real(scalar_mult(z, z_star))
+    # 1 / z = conj(w) / |w|^2 / s with w = z / s scaled to modulus ~1
+    s = _scale(z)
+    w = z / s
 
-    return z_star / denominator
+    return conj(w) / (real(w) ** 2 + imag(w) ** 2) / s
 
 
 def norm_sqr(x):
@@ -403,4 +411,9 @@ def norm(x):
     :returns: :math:`|x|`.
     :rtype: torch.Tensor
     """
-    return norm_sqr(x).sqrt_()
+    # scale by the largest modulus so that the squares stay in range
+    abs_x = absolute_value(x)
+    m = abs_x.max()
+    if m == 0:
+        return m
+    return m * (abs_x / m).pow_(2).sum().sqrt_()
